@@ -136,14 +136,18 @@ def run_call(bs, call, to):
     c = call["c"]
     kw = {} if to == "default" else {"timeout": to}
     try:
+        if call.get("omit_maxsize"):
+            pass            # the limit in force is the socket's own maxsize (recorded in call["maxsize"] for the specification)
+        elif c in ("recv_until", "recv_close"):
+            kw = dict(kw, maxsize=call["maxsize"])
         if c == "recv_until":
-            v = bs.recv_until(enc(call["delim"]), maxsize=call["maxsize"], with_delimiter=call["withd"], **kw)
+            v = bs.recv_until(enc(call["delim"]), with_delimiter=call["withd"], **kw)
         elif c == "recv_size":
             v = bs.recv_size(call["size"], **kw)
         elif c == "peek":
             v = bs.peek(call["size"], **kw)
         elif c == "recv_close":
-            v = bs.recv_close(maxsize=call["maxsize"], **kw)
+            v = bs.recv_close(**kw)
         elif c == "recv":
             v = bs.recv(call["size"], **kw)
         else:
@@ -198,12 +202,18 @@ def recv_session(rng, maxlen):
         to = rng.choice([1000.0, "default"])
     fs = FakeSock(enc(stream), plan)
     kw = {} if recvsize is None else {"recvsize": recvsize}
+    # the socket's own maxsize: small ones make "limit of this call" and "limit of the socket" differ
+    inst_max = rng.choice([None, None, 1, 2, 3, 5])
+    if inst_max is not None:
+        kw["maxsize"] = inst_max
     bs = su.BufferedSocket(fs, timeout=None if to is None else 1000.0, **kw)
     evs = []
     Clock(jump).use()
     try:
         for _ in range(rng.randint(1, 5)):
             call = gen_call(rng, n)
+            if inst_max is not None and call["c"] in ("recv_until", "recv_close") and rng.random() < 0.35:
+                call["omit_maxsize"], call["maxsize"] = True, inst_max
             for attempt in range(12):
                 r = run_call(bs, call, to)
                 try:
